@@ -561,6 +561,47 @@ def r_ctor_wiring(ck: Checker) -> None:
     ck.need(n >= 10, f"constructors found ({n})")
 
 
+def _misplaced_names(params: list[str], call: ast.Call) -> list[tuple[str, str]]:
+    """(argument name, parameter it is passed as) for bare-name arguments that carry the name of ANOTHER parameter"""
+    out = []
+    if any(isinstance(a, ast.Starred) for a in call.args):
+        return out
+    for i, a in enumerate(call.args):
+        if isinstance(a, ast.Name) and i < len(params) and a.id in params and params.index(a.id) != i:
+            out.append((a.id, params[i]))
+    for kw in call.keywords:
+        if kw.arg and isinstance(kw.value, ast.Name) and kw.value.id in params and kw.value.id != kw.arg:
+            out.append((kw.value.id, kw.arg))
+    return out
+
+
+def r_arg_names(ck: Checker) -> None:
+    """throughout ngo a local that is named like a parameter of the function it is handed to is handed over AS that
+    parameter (678 resolved calls, no exception): `good_split(rest, new, stm)` for `def good_split(self, new, rest, stm)` is
+    two arguments in the wrong order"""
+    probe = ast.parse("f(rest, new, stm)").body[0].value  # type: ignore[attr-defined]
+    hit = _misplaced_names(["new", "rest", "stm"], probe)
+    ck.add("matcher self-test: `f(rest, new, stm)` for parameters (new, rest, stm) is recognised", len(hit) == 2 and not _misplaced_names(["new", "rest", "stm"], ast.parse("f(new, rest, stm)").body[0].value), "ngo:<all>", None, f"{len(hit)} misplaced name(s) in the probe", "", nontrivial=False)  # type: ignore[attr-defined]
+    n = 0
+    for func in ck.prg.funcs.values():
+        if isinstance(func.node, ast.Lambda):
+            continue
+        for call in [x for x in ast.walk(func.node) if isinstance(x, ast.Call)]:
+            res = ck.prg.resolve_callee(func, call.func)
+            tgt = ck.prg.funcs.get(res) if res else None
+            if tgt is None and res in ck.prg.classes:
+                tgt = ck.prg.funcs.get(f"{res}.__init__")
+            if tgt is None or isinstance(tgt.node, ast.Lambda):
+                continue
+            n += 1
+            params = [p_ for p_ in tgt.params() if p_ not in ("self", "cls")]
+            for name, as_ in _misplaced_names(params, call):
+                ck.add(f"{tag(func.module.name)} {func.name}: `{name}` is passed to {tgt.name} as `{name}`", False, func, call, f"`{short(unparse(call), 90)}` passes `{name}` as parameter `{as_}` of {tgt.name}({', '.join(params)})",
+                       "two arguments of the same type in the wrong order type-check and run: the callee then tests the safety of the wrong half of a split, renames the wrong variables, registers the outputs as inputs")
+    ck.add("arguments named like a parameter of the callee are passed as that parameter", True, "ngo:<all>", None, f"{n} resolved calls examined", "", nontrivial=False)
+    ck.need(n >= 500, f"resolved calls found ({n})")
+
+
 _EXTRA = module_extra()
 _EXTRA_ONE_SHOT = {**_EXTRA, **{p_: tuple(_EXTRA.get(p_, ())) + ("TranslationMap", "[utils.ast]") for p_ in ("C02", "C12", "C13")}}
 
@@ -573,4 +614,5 @@ RULES = [
     Rule("GEN.loop-leak", ("C01",), r_loop_leak, extra=_EXTRA),
     Rule("GEN.one-shot", ("C01",), r_one_shot, extra=_EXTRA_ONE_SHOT),
     Rule("GEN.ctor-wiring", ("C01", "C07"), r_ctor_wiring, extra=_EXTRA),
+    Rule("GEN.arg-names", ("C01",), r_arg_names, extra=_EXTRA),
 ]
